@@ -1,5 +1,6 @@
 import PdshVerif.Base.Hex
 import PdshVerif.Mod.Load
+import PdshVerif.Mod.LoadTie
 import PdshVerif.Mod.Spec
 import Driver.Util
 
@@ -13,7 +14,8 @@ import Driver.Util
     OBJ   := x (dlopen fails) | n (no pdsh_module_info) | m/TYPE/NAME/PRIO/PERS/INIT/OPTS
              TYPE,NAME := HEX | ~ (NULL)   INIT := ~ | 0 (fails) | 1   OPTS := ~ (NULL) | e (empty) | ROW+ROW..
              ROW := CODE.HASARG.PERS
-  `pdshmodel mod model [persfirst]`:  (persfirst = the repaired form of F17-PERS: _mod_register looks at the
+  `pdshmodel mod model [persfirst] [tiefix]`:  (tiefix = the proposed repair of F17-TIE, Mod/LoadTie.lean)
+    (persfirst = the repaired form of F17-PERS: _mod_register looks at the
        personality BEFORE it touches an existing module of the same type and name; for the model this is the
        same as an object without type, so the driver rewrites such descriptors and runs the same model)
        ok|fatal L=FILE:ACT,... C=FILE,... O=HEX D=FILE,... U=CODE:i|n|hFILE.ARG,...
@@ -154,22 +156,13 @@ def showUse (c : Char) (u : OptUse) : String :=
     | .nohandler => "n"
     | .handled f a => "h" ++ hx f ++ "." ++ (if a then "1" else "0")
 
-/-- repaired F17-PERS as an input transformation: a module object that does not fit the personality is
-    refused before any duplicate handling, exactly like an object without a type -/
-def persFirstDir (pers : Nat) (d : Dir) : Dir :=
-  { d with files := d.files.map fun f =>
-      match f.obj with
-      | .mod ds => if ds.pers &&& pers = 0 then { f with obj := .mod { ds with type := none } } else f
-      | _ => f }
-
-def persFirstEnv (e : Env) : Env :=
-  { e with envDir := e.envDir.map (persFirstDir e.pers), builtin := persFirstDir e.pers e.builtin }
-
-def stepModel (persFirst : Bool) (line : String) : String :=
+def stepModel (persFirst tieFix : Bool) (line : String) : String :=
   match parseCase (Driver.words line) emptyCase with
   | none => "bad-op"
   | some c =>
-    let r := loadAll (if persFirst then persFirstEnv c.env else c.env)
+    let env := if persFirst then persFirstEnv c.env else c.env
+    -- tiefix = the proposed repair of F17-TIE (findings/C17.patch), Mod/LoadTie.lean
+    let r := if tieFix then Tie.loadAll env else loadAll env
     (if r.fatal then "fatal" else "ok") ++
       " L=" ++ ",".intercalate (r.mods.map fun m => hx m.file ++ ":" ++ (if m.active then "1" else "0")) ++
       " C=" ++ ",".intercalate (r.calls.map hx) ++
@@ -204,8 +197,12 @@ def stepSpec (line : String) : String :=
 def main (args : List String) : IO UInt32 := do
   let stdin ← IO.getStdin
   match args with
-  | ["model"] => Driver.forLines stdin () (fun _ l => ((), stepModel false l)); return 0
-  | ["model", "persfirst"] => Driver.forLines stdin () (fun _ l => ((), stepModel true l)); return 0
+  | "model" :: vs =>
+    if vs.all (fun v => v = "persfirst" || v = "tiefix") then
+      Driver.forLines stdin () (fun _ l => ((), stepModel (vs.contains "persfirst") (vs.contains "tiefix") l))
+      return 0
+    else
+      IO.eprintln "usage: pdshmodel mod model [persfirst] [tiefix]"; return 2
   | ["spec"] => Driver.forLines stdin () (fun _ l => ((), stepSpec l)); return 0
   | _ => IO.eprintln "usage: pdshmodel mod model|spec"; return 2
 
